@@ -17,7 +17,9 @@ From FJ Require Import Lib.Base.
    The operator semantics are those of Model/Expr.v (C12): `Expr.apply_op`.
    The code modelled is the tree AFTER the fix commits 519ec12 (get_minimized_expr wraps arithmetic errors: F7),
    b770ddf (flip / jump / wflip words are range-checked when the op is inserted: F8), 0ef0f9a (a pad that runs past
-   2^w bits is refused: F9, partly) and 3bd0fc0 (Writer.add_data / add_segment validate what they are given).
+   2^w bits is refused: F9, partly), 3bd0fc0 (Writer.add_data / add_segment validate what they are given), 435c753
+   (get_wflip_spot skips the op that holds the input bit), 825c6f7 + 7a19742 (a negative reserve is refused) and 07c8d15 (a source
+   label spelled like the internal "_.wflip_area_start_<i>" is a 'declared twice' error: N2).
 
    What is abstracted (and why it does not matter for the classification of failures):
    * fj_words / wflip_words / Writer.data are kept as bags of the values stored in them (positions are irrelevant: add_data
@@ -49,7 +51,7 @@ Inductive libkind :=
   | KNegPow | KBadMath | KBadLabelSwap | KRepArgs | KCantEvalLabel
   (* FlipJumpPreprocessorException (macro_resolve_error) *)
   | KMacroUndefined | KMacroDepth | KLabelTwice | KRepTimes | KPadEval | KPadNonPositive | KPadUnaligned | KPadTooBig
-  | KSegmentEval | KSegmentUnaligned | KReserveEval | KReserveUnaligned
+  | KSegmentEval | KSegmentUnaligned | KReserveEval | KReserveUnaligned | KReserveNegative
   (* FlipJumpAssemblerException *)
   | KOpEval | KOpRange | KBoundsUnaligned | KNoSpace | KAddSegment | KNoFirstOp
   (* FlipJumpWriteFjmException *)
@@ -265,7 +267,6 @@ Inductive lastop :=
 Record pstate := mkp {
   p_addr : Z;                 (* curr_address *)
   p_labels : dict Z;          (* labels *)
-  p_pos : list string;        (* keys of labels_code_positions *)
   p_ops : list lastop;        (* result_ops after the first NewSegment, most recent first *)
   p_w0 : Z;                   (* wflip_start_address of the first NewSegment (the one __init__ appends; so popleft() in
                                  labels_resolve always finds it) *)
@@ -286,20 +287,23 @@ Definition patch_last (st : pstate) : list lastop * Z :=
 
 Definition wflip_start_label (i : N) : string := "_.wflip_area_start_" ++ N_to_string i.
 
-(* PreprocessorData.insert_label: `if label in self.labels: other_position = self.labels_code_positions[label]` -
-   insert_segment puts its "_.wflip_area_start_<i>" labels into `labels` WITHOUT a code position: KeyError *)
+(* PreprocessorData.insert_label: `if label in self.labels: other_position = self.labels_code_positions.get(label, ...)`
+   (fix 07c8d15: no KeyError for the internal labels, which have no code position) *)
 Definition insert_label (st : pstate) (name : string) : res pstate :=
-  if dict_mem (p_labels st) name then
-    if existsb (String.eqb name) (p_pos st) then LibError KLabelTwice else RawExn KeyError
-  else Ok (mkp (p_addr st) (dict_set (p_labels st) name (p_addr st)) (name :: p_pos st) (p_ops st) (p_w0 st) (p_seg st)).
+  if dict_mem (p_labels st) name then LibError KLabelTwice
+  else Ok (mkp (p_addr st) (dict_set (p_labels st) name (p_addr st)) (p_ops st) (p_w0 st) (p_seg st)).
 
-Definition insert_segment (st : pstate) (start : Z) : pstate :=
-  let '(ops, w0) := patch_last st in
-  mkp start (dict_set (p_labels st) (wflip_start_label (p_seg st)) (p_addr st)) (p_pos st)
-      (LNewSeg start (-1) :: ops) w0 (p_seg st + 1)%N.
+(* insert_segment (fix 07c8d15: the internal label must not exist yet - 'label declared twice ... is also an
+   assembler-internal label') *)
+Definition insert_segment (st : pstate) (start : Z) : res pstate :=
+  if dict_mem (p_labels st) (wflip_start_label (p_seg st)) then LibError KLabelTwice
+  else
+    let '(ops, w0) := patch_last st in
+    Ok (mkp start (dict_set (p_labels st) (wflip_start_label (p_seg st)) (p_addr st))
+            (LNewSeg start (-1) :: ops) w0 (p_seg st + 1)%N).
 
 Definition insert_reserve (st : pstate) (size : Z) : pstate :=
-  mkp (p_addr st + size) (p_labels st) (p_pos st) (LReserve (p_addr st + size) :: p_ops st) (p_w0 st) (p_seg st).
+  mkp (p_addr st + size) (p_labels st) (LReserve (p_addr st + size) :: p_ops st) (p_w0 st) (p_seg st).
 
 Definition align_current_address (cfg : config) (st : pstate) (n : Z) : res pstate :=
   let dw := 2 * c_w cfg in
@@ -307,10 +311,10 @@ Definition align_current_address (cfg : config) (st : pstate) (n : Z) : res psta
   else let k := ((- p_addr st) / dw) mod n in
        if 2 ^ c_w cfg <? p_addr st + k * dw then        (* fix 0ef0f9a; the message prints n, the address and k in decimal *)
          (if unprintable n || unprintable (p_addr st) || unprintable k then RawExn ValueError else LibError KPadTooBig)
-       else Ok (mkp (p_addr st + k * dw) (p_labels st) (p_pos st) (LPadding k :: p_ops st) (p_w0 st) (p_seg st)).
+       else Ok (mkp (p_addr st + k * dw) (p_labels st) (LPadding k :: p_ops st) (p_w0 st) (p_seg st)).
 
 Definition push_op (st : pstate) (a : Z) (o : lastop) : pstate :=
-  mkp a (p_labels st) (p_pos st) (o :: p_ops st) (p_w0 st) (p_seg st).
+  mkp a (p_labels st) (o :: p_ops st) (p_w0 st) (p_seg st).
 
 (* the exception a `calculate_*` helper of ops.py lets through: FlipJumpExprException is re-labelled by the caller,
    anything else passes *)
@@ -379,11 +383,13 @@ Definition resolve_op (rec : option callee_t) (sg : dict expr) (prefix : string)
   | SSegment e _ =>
     do e' <- eval_new cfg sg e;
     do a <- relabel (exact_eval cfg (p_labels st) e') KSegmentEval;
-    if negb (a mod c_w cfg =? 0) then LibError KSegmentUnaligned else Ok (insert_segment st a)
+    if negb (a mod c_w cfg =? 0) then LibError KSegmentUnaligned else insert_segment st a
   | SReserve e _ =>
     do e' <- eval_new cfg sg e;
     do r <- relabel (exact_eval cfg (p_labels st) e') KReserveEval;
-    if negb (r mod c_w cfg =? 0) then LibError KReserveUnaligned else Ok (insert_reserve st r)
+    (* fix 825c6f7 / 7a19742: "reserve must get a non-negative size, but got a negative one" (no integer is printed) *)
+    if r <? 0 then LibError KReserveNegative
+    else if negb (r mod c_w cfg =? 0) then LibError KReserveUnaligned else Ok (insert_reserve st r)
   | SMacroCall name cargs pos =>
     do cargs' <- eval_new_list cfg sg cargs;
     let callee := call_name name cargs' in
@@ -434,7 +440,7 @@ Fixpoint resolve_aux (fuel : nat) (st : pstate) (mn : macro_name) (args : list e
                             (params_dictionary m args prefix) prefix) (m_ops m) st
   end.
 
-Definition pre_init : pstate := mkp 0 [] [] [] (-1) 0%N.
+Definition pre_init : pstate := mkp 0 [] [] (-1) 0%N.
 
 (* resolve_macros: the wflip start of the first segment, the rest of the op queue (in order), the label dictionary *)
 Definition resolve_macros : res (Z * list lastop * dict Z) :=
@@ -533,17 +539,39 @@ Definition insert_fj_op (cfg : config) (st : bstate) (f j : Z) : res bstate :=
   if negb (in_memory cfg f) || negb (in_memory cfg j) then LibError KOpRange
   else Ok (mkb (b_first st) (b_nextw st) (b_nfj st + 2) (b_nwf st) (b_pads st) (b_dict st) (f :: j :: b_fjw st) (b_wfw st) (b_wr st)).
 
-(* get_wflip_spot: the list and the address of the op that will hold the next chain element *)
-Definition get_wflip_spot (cfg : config) (st : bstate) : bstate * (wlist * Z) :=
-  match b_pads st with
+Definition bit_length (v : Z) : Z := match v with Z0 => 0 | Zpos p | Zneg p => Zpos (Pos.size p) end.
+
+(* _covers_input_bit: an op at this address would hold the input bit 3w + #w *)
+Definition covers_input_bit (cfg : config) (a : Z) : bool :=
+  let ib := 3 * c_w cfg + bit_length (c_w cfg) in (a <=? ib) && (ib <? a + 2 * c_w cfg).
+
+(* `while self.padding_ops_indices: index = pop(); if not covers(address): return spot`.  The holes of a run are 2w bits
+   apart, so at most one hole of a run covers the input bit: after skipping the top hole the next one is taken. *)
+Fixpoint take_pad_hole (cfg : config) (first : Z) (pads : list (Z * Z)) : option (Z * list (Z * Z)) :=
+  match pads with
+  | [] => None
   | (base, cnt) :: rest =>
     let idx := base + 2 * (cnt - 1) in
-    (mkb (b_first st) (b_nextw st) (b_nfj st) (b_nwf st) (if 1 <? cnt then (base, cnt - 1) :: rest else rest)
+    if negb (covers_input_bit cfg (first + c_w cfg * idx)) then
+      Some (first + c_w cfg * idx, if 1 <? cnt then (base, cnt - 1) :: rest else rest)
+    else if 1 <? cnt then
+      Some (first + c_w cfg * (idx - 2), if 2 <? cnt then (base, cnt - 2) :: rest else rest)
+    else take_pad_hole cfg first rest
+  end.
+
+(* get_wflip_spot (fix 435c753): the list and the address of the op that will hold the next chain element; the wflip area
+   steps over the op that holds the input bit (`while covers(next_wflip_address)`: consecutive slots are 2w apart, so the
+   loop body runs at most once) *)
+Definition get_wflip_spot (cfg : config) (st : bstate) : bstate * (wlist * Z) :=
+  match take_pad_hole cfg (b_first st) (b_pads st) with
+  | Some (addr, pads') =>
+    (mkb (b_first st) (b_nextw st) (b_nfj st) (b_nwf st) pads' (b_dict st) (b_fjw st) (b_wfw st) (b_wr st), (InFj, addr))
+  | None =>
+    let skip := if covers_input_bit cfg (b_nextw st) then 2 * c_w cfg else 0 in
+    let nw := b_nextw st + skip in
+    (mkb (b_first st) (nw + 2 * c_w cfg) (b_nfj st) (b_nwf st + (if covers_input_bit cfg (b_nextw st) then 4 else 2)) []
          (b_dict st) (b_fjw st) (b_wfw st) (b_wr st),
-     (InFj, b_first st + c_w cfg * idx))
-  | [] =>
-    (mkb (b_first st) (b_nextw st + 2 * c_w cfg) (b_nfj st) (b_nwf st + 2) [] (b_dict st) (b_fjw st) (b_wfw st) (b_wr st),
-     (InWf, b_nextw st))
+     (InWf, nw))
   end.
 
 Fixpoint zlist_eqb (a b : list Z) : bool :=
@@ -581,8 +609,6 @@ Fixpoint wflip_chain (cfg : config) (st : bstate) (prev : wlist) (rest : list Z)
 (* [word_address + i for i in range(w) if flip_value & (1 << i)], ascending *)
 Definition flip_addresses (cfg : config) (addr v : Z) : list Z :=
   map (fun i => addr + Z.of_nat i) (filter (fun i => Z.testbit v (Z.of_nat i)) (seq 0 (Z.to_nat (c_w cfg)))).
-
-Definition bit_length (v : Z) : Z := match v with Z0 => 0 | Zpos p | Zneg p => Zpos (Pos.size p) end.
 
 Definition insert_wflip_ops (cfg : config) (st : bstate) (addr v ret : Z) : res bstate :=
   if v =? 0 then insert_fj_op cfg st 0 ret
@@ -708,10 +734,8 @@ Definition counts_materialisable (cfg : config) (t : macro_dict) : bool :=
 Definition expr_depth_ok (cfg : config) (t : macro_dict) : bool :=
   match o_verdict (assemble_model cfg t) with VCatchAll RecursionError => false | _ => true end.
 
-(* a source label spelled like the internal "_.wflip_area_start_<i>" labels (KeyError in insert_label); the same
-   guard excludes a dictionary without the main macro ("", 0), which parse_macro_tree never returns *)
-Definition internal_labels_free (cfg : config) (t : macro_dict) : bool :=
-  match o_verdict (assemble_model cfg t) with VCatchAll KeyError => false | _ => true end.
+(* domain: parse_macro_tree always returns a dictionary that holds the main macro ("", 0) *)
+Definition has_main (t : macro_dict) : bool := match find_macro t main_macro_name with Some _ => true | None => false end.
 
 (* a diagnostic that has to print an integer of more than 4300 digits (ValueError inside the handler) *)
 Definition diagnostics_printable (cfg : config) (t : macro_dict) : bool :=
@@ -730,7 +754,7 @@ Definition libkind_code (k : libkind) : N :=
   | KNegPow => 1 | KBadMath => 2 | KBadLabelSwap => 3 | KRepArgs => 4 | KCantEvalLabel => 5
   | KMacroUndefined => 10 | KMacroDepth => 11 | KLabelTwice => 12 | KRepTimes => 13 | KPadEval => 14
   | KPadNonPositive => 15 | KPadUnaligned => 16 | KPadTooBig => 21 | KSegmentEval => 17 | KSegmentUnaligned => 18
-  | KReserveEval => 19 | KReserveUnaligned => 20
+  | KReserveEval => 19 | KReserveUnaligned => 20 | KReserveNegative => 22
   | KOpEval => 30 | KOpRange => 31 | KBoundsUnaligned => 32 | KNoSpace => 33 | KAddSegment => 34 | KNoFirstOp => 35
   | KWriterData => 40
   end%N.
